@@ -4,7 +4,7 @@
 use crate::ast::*;
 use crate::choice::{Choices, ChoicesExt};
 use crate::common::*;
-use crate::props::c01::{gen_pcase, op_names, pcase_json, script_profile};
+use crate::props::c01::{gen_pcase, maybe_lengthen, op_names, pcase_json, script_profile};
 use crate::run::*;
 use serde_json::json;
 
@@ -111,10 +111,12 @@ fn check(case: &PCase, ctx: &Ctx) -> (Verdict, bool, Vec<&'static str>, Option<s
 }
 
 fn run_one_cut(c: &mut dyn Choices, ctx: &Ctx) -> Outcome {
-  let base = gen_pcase(c, 4, true);
+  let mut base = gen_pcase(c, 4, true);
   let pos = c.pick(base.script.len() + 1);
   let guard = c.pick(4) == 0;
-  let case = with_cut(&base, pos, guard);
+  // (appended picks) long variant: the cut stays where it was, relative to the original script
+  let shift = maybe_lengthen(c, &mut base);
+  let case = with_cut(&base, pos + shift, guard);
   if known_excluded(&case, ctx) {
     return Outcome { labels: vec!["excluded-known"], ..Outcome::discard() };
   }
@@ -123,8 +125,9 @@ fn run_one_cut(c: &mut dyn Choices, ctx: &Ctx) -> Outcome {
 }
 
 fn run_every_cut(c: &mut dyn Choices, ctx: &Ctx) -> Outcome {
-  let base = gen_pcase(c, 4, true);
+  let mut base = gen_pcase(c, 4, true);
   let guard = c.pick(4) == 0;
+  maybe_lengthen(c, &mut base);
   if known_excluded(&base, ctx) {
     return Outcome { labels: vec!["excluded-known"], ..Outcome::discard() };
   }
